@@ -56,9 +56,29 @@ pub fn run_c03(rep: &Report) -> i32 {
         programs: super::c09::growing_programs(),
         goals: gen::goals_f1a(true),
     });
-    let depth = c01::ref_depth(thorough);
+    // the order in which a table's strands are created follows the order of the impls: the
+    // one-parameter fragments are also enumerated with their impls declared in reverse order
+    for c in corpora.iter_mut() {
+        if c.frag.starts_with("f1a") {
+            let rev: Vec<Program> = c
+                .programs
+                .iter()
+                .filter(|p| p.impls.len() > 1)
+                .map(|p| {
+                    let mut q = p.clone();
+                    q.impls.reverse();
+                    q
+                })
+                .collect();
+            c.programs.extend(rev);
+        }
+    }
+    let depth0 = c01::ref_depth(thorough);
     for_each_program(rep, &corpora, |pc, goals| {
         let mut local: BTreeMap<String, u64> = BTreeMap::new();
+        // witnesses one level deeper where the universe stays small (one unary constructor):
+        // an enumeration that ends early typically loses the deeper solutions
+        let depth = if pc.frag.starts_with("f1a") { depth0.max(4) } else { depth0 };
         for g in goals {
             if g.peeled.var_creation.is_empty() {
                 continue;
@@ -70,6 +90,20 @@ pub fn run_c03(rep: &Report) -> i32 {
             // must satisfy the same clauses (it need not be identical)
             let run2 = enumerate(&mut solver, pc, g);
             *local.entry("enumerations".into()).or_insert(0) += 2;
+            // enumerations on a solver whose tables were left partially filled by an earlier,
+            // shorter use: (a) an enumeration the caller stopped after the first answer,
+            // (b) a plain `solve` (which stops pulling answers as soon as it can decide)
+            let mut extra: Vec<(&str, Run)> = vec![];
+            if run1.answers.len() >= 2 {
+                let mut s3 = AnySolver::new(SolverCfg::SLG);
+                let _ = s3.solve_multiple(&*pc.chalk, &g.peeled.ugoal, &mut |_a, _n| false);
+                extra.push(("after-first-answer", enumerate(&mut s3, pc, g)));
+                let mut s4 = AnySolver::new(SolverCfg::SLG);
+                let _ = s4.solve(&*pc.chalk, &g.peeled.ugoal);
+                extra.push(("after-solve", enumerate(&mut s4, pc, g)));
+                *local.entry("enumerations".into()).or_insert(0) += 2;
+                *local.entry("enumerations_after_a_partial_use".into()).or_insert(0) += 2;
+            }
             let ac = AnswerCheck {
                 refm: &pc.refm,
                 pa: &g.pa,
@@ -84,7 +118,9 @@ pub fn run_c03(rep: &Report) -> i32 {
                 *local.entry("nontrivial_cases".into()).or_insert(0) += 1;
             }
             let mut ended = false;
-            for (label, run) in [("fresh", &run1), ("again", &run2)] {
+            let mut runs: Vec<(&str, &Run)> = vec![("fresh", &run1), ("again", &run2)];
+            runs.extend(extra.iter().map(|(l, r)| (*l, r)));
+            for (label, run) in runs {
                 ended = match &run.ret {
                     Caught::Ok(b) => *b,
                     _ => {
